@@ -41,7 +41,7 @@ pub fn placements(gaps: usize, k: usize) -> Vec<Vec<u8>> {
     out
 }
 
-fn weave(items: &[i32], place: &[u8]) -> Vec<Ev> {
+pub fn weave(items: &[i32], place: &[u8]) -> Vec<Ev> {
     let mut s = vec![];
     for (g, &n) in place.iter().enumerate() {
         for _ in 0..n {
@@ -56,15 +56,20 @@ fn weave(items: &[i32], place: &[u8]) -> Vec<Ev> {
 
 /// Every item sequence of length <= max_len over {0,1,2} x every placement of <= k Pendings.
 pub fn all_scripts(max_len: usize, k: usize) -> Vec<Vec<Ev>> {
+    all_scripts_over(max_len, k, 3)
+}
+
+/// The same over the alphabet 0..alpha.
+pub fn all_scripts_over(max_len: usize, k: usize, alpha: usize) -> Vec<Vec<Ev>> {
     let mut out = vec![];
     for n in 0..=max_len {
         let pl = placements(n + 1, k);
-        for code in 0..3usize.pow(n as u32) {
+        for code in 0..alpha.pow(n as u32) {
             let mut c = code;
             let items: Vec<i32> = (0..n)
                 .map(|_| {
-                    let x = (c % 3) as i32;
-                    c /= 3;
+                    let x = (c % alpha) as i32;
+                    c /= alpha;
                     x
                 })
                 .collect();
@@ -294,8 +299,8 @@ fn run_c11(args: &Args) {
         rep.finish("replay", false);
         return;
     }
-    let mut rng = args.rng();
     let miri = args.tier == Tier::Miri;
+    let mut rng = if miri { args.rng().fork(args.shard.0 as u64 + 1) } else { args.rng() };
     let thorough = args.tier == Tier::Thorough;
     let k = args.budget(2, 3, 1);
     let max_len = args.budget(4, 4, 2);
@@ -400,9 +405,10 @@ fn run_c11(args: &Args) {
             if !args.in_shard(ei) {
                 continue;
             }
-            let n = if cat[ei].composition { 1 } else { 3 };
+            // each shard does about the work of the single quick shard: more shards => more cases
+            let n = (if cat[ei].composition { 1 } else { 3 }) * args.shard.1.max(1);
             for _ in 0..n {
-                random_case(&cat, ei, &mut rng.fork(ei as u64), 4, &mut rep);
+                random_case(&cat, ei, &mut rng, 4, &mut rep);
             }
         }
     }
@@ -470,7 +476,7 @@ fn random_case(cat: &[Entry], ei: usize, rng: &mut Rng, max_items: usize, rep: &
     exec(cat, ei, &c, rep);
 }
 
-fn parse_script(v: &Value) -> Vec<Ev> {
+pub fn parse_script(v: &Value) -> Vec<Ev> {
     v.as_array().map(|a| a.iter().map(|x| match x.as_i64() { Some(i) => Ev::It(i as i32), None => Ev::Pend }).collect()).unwrap_or_default()
 }
 
